@@ -140,7 +140,7 @@ def worldOp (w : World.World) (o : Sexp) : World.World × String :=
           | .bytes (.ok data) =>
             let (w3, ov) := World.step w2 (.unmarshal (idx i) d data ty.zero)
             (match ov with
-             | .val (.ok r) => (w3, hexOf data ++ " " ++ showValT ty r)
+             | .val (.ok r) => (w3, hexOf data ++ " " ++ showValTD d ty r)
              | _ => (w3, hexOf data ++ " err"))
           | _ => (w2, "err"))
        | _ => (w1, "err"))
@@ -252,8 +252,8 @@ def runOp (s : Sexp) : String :=
          let data := marshal ty (coerceIn ty v)
          (match Alias.unmarshalL ty data (Alias.lift ty.zero) with
           | .ok lv =>
-            let before := showValT ty (Alias.observe data lv)
-            let after := showValT ty (Alias.observe (data.map fun _ => 170) lv)
+            let before := showValTD d ty (Alias.observe data lv)
+            let after := showValTD d ty (Alias.observe (data.map fun _ => 170) lv)
             if before == after then "ok " ++ after else s!"ok {after} CHANGED-FROM {before}"
           | .err => "err" | .panic => "panic" | .hang => "hang")
        | _ => "builderr")
@@ -358,7 +358,7 @@ def runOp (s : Sexp) : String :=
            | .atom "zero" => some ty.zero
            | s => (parseVal s).map (coerceIn ty)
          (match p with
-          | some p => showRes (showValT ty) (unmarshal ty data p)
+          | some p => showRes (showValTD d ty) (unmarshal ty data p)
           | none => "bad-op")
        | _ => "builderr")
     | _, _, _, _ => "bad-op"
@@ -371,7 +371,7 @@ def runOp (s : Sexp) : String :=
            | .atom "zero" => some ty.zero
            | s => (parseVal s).map (coerceIn ty)
          (match p with
-          | some p => showRes (showValT ty) (unmarshal ty (marshal ty (coerceIn ty v)) p)
+          | some p => showRes (showValTD d ty) (unmarshal ty (marshal ty (coerceIn ty v)) p)
           | none => "bad-op")
        | _ => "builderr")
     | _, _, _, _ => "bad-op"
@@ -384,10 +384,10 @@ def runOp (s : Sexp) : String :=
          -- also confront the theorem's right-hand side (`normPos`) with the run
          (match unmarshal ty (marshal ty v) ty.zero with
           | .ok r =>
-            let a := showValT ty r
-            let b := showValT ty (ty.normPos v)
+            let a := showValTD d ty r
+            let b := showValTD d ty (ty.normPos v)
             if a == b then "ok " ++ a else s!"ok {a} NORM-MISMATCH {b}"
-          | e => showRes (showValT ty) e)
+          | e => showRes (showValTD d ty) e)
        | _ => "builderr")
     | _, _, _, _ => "bad-op"
   -- (app cfg tydef tag val xPREFIX): Marshal(prefix, v)
@@ -408,7 +408,7 @@ def runOp (s : Sexp) : String :=
            | .atom "zero" => some ty2.zero
            | s => (parseVal s).map (coerceIn ty2)
          (match p with
-          | some p => showRes (showValT ty2) (unmarshal ty2 (marshal ty (coerceIn ty v)) p)
+          | some p => showRes (showValTD d2 ty2) (unmarshal ty2 (marshal ty (coerceIn ty v)) p)
           | none => "bad-op")
        | _, _ => "builderr")
     | _, _, _, _ => "bad-op"
@@ -417,7 +417,7 @@ def runOp (s : Sexp) : String :=
     match parseCfg cfgE, parseCfg cfgD, parseTyDef td, parseVal v with
     | some ce, some cd, some d, some v =>
       (match buildTop ce d "", buildTop cd d "" with
-       | .ok tye, .ok tyd => showRes (showValT tyd) (unmarshal tyd (marshal tye (coerceIn tye v)) tyd.zero)
+       | .ok tye, .ok tyd => showRes (showValTD d tyd) (unmarshal tyd (marshal tye (coerceIn tye v)) tyd.zero)
        | _, _ => "builderr")
     | _, _, _, _ => "bad-op"
   -- (laws cfg tydef tag val xTAGBYTES): Size, Append, Read-consumed on the codec itself
